@@ -144,6 +144,14 @@ fn corpus() -> Vec<RunCase> {
         // opcode 0xD with the feature off: exit status 1
         mk(0x3000, &[0xD440, 0xF025], &[], false),
         mk(0x3000, &[0xD440, 0xD080, 0xF025], &[], true),
+        // strings containing ESC followed by what looks like the rest of an escape sequence: every
+        // character goes out on its own (in --minimal mode a lone ESC is dropped, nothing else)
+        mk(0x3000, &[0xE002, 0xF022, 0xF025, 0x1B, 0x5B, 0x31, 0x6D, 0x48, 0x69, 0x21, 0x0A, 0x1B, 0x41, 0], &[], false),
+        RunCase { stack: false, minimal: false, fuel: 5000, inp: vec![], image: vec![0x3000, 0xE002, 0xF022, 0xF025, 0x1B, 0x5B, 0x31, 0x6D, 0x48, 0x69, 0x21, 0x0A, 0x1B, 0x41, 0] },
+        mk(0x3000, &[0xE002, 0xF024, 0xF025, 0x5B1B, 0x6D31, 0x6948, 0x1B21, 0x0041, 0], &[], false),
+        RunCase { stack: false, minimal: false, fuel: 5000, inp: vec![], image: vec![0x3000, 0xE002, 0xF024, 0xF025, 0x5B1B, 0x6D31, 0x6948, 0x1B21, 0x0041, 0] },
+        // the same through IN (echo) and OUT
+        mk(0x3000, &[0xF023, 0xF023, 0xF023, 0xF023, 0xF021, 0xF025], &[0x1B, 0x5B, 0x6D, 0x41], false),
         // images loaded above user space: the first fetch is already outside [origin, 0xFE00)
         mk(0xFE00, &[0xF025], &[], false),
         mk(0xFE01, &[0xE002, 0xF022, 0xF025, 0x4F, 0x55, 0x54, 0], &[], false),
